@@ -56,7 +56,14 @@ Inductive expr :=
 | EPop (x : string) (k : expr)           (* x.pop(k), x a variable holding a dict: removes the key, value = the old entry *)
 | EList (l : list expr)                  (* [a, b, ...] *)
 | EDictRange (x : string) (k v n : expr) (* {k: v for x in range(n)} *)
-| ESortedCol (a : expr) (c : Z).         (* np.sort(a[:, c]) *)
+| ESortedCol (a : expr) (c : Z)          (* np.sort(a[:, c]) *)
+| EDictValues (a : expr)                 (* list(a.values()) *)
+| EListComp (x : string) (body it : expr)        (* [body for x in it]; body is evaluated with x bound, its effects are dropped *)
+| ENeg (a : expr)                        (* -a on a number or (elementwise) on an integer array *)
+| EOracle (name : string) (a : expr)     (* an external function whose ANSWER FOR THIS CALL is supplied in the environment under
+                                            "oracle:" ++ name (np.argsort: any permutation that sorts); a is evaluated first *)
+| EZeros (n : expr)                      (* np.zeros(n, dtype=int) *)
+| EDictEnum (i x : string) (k v it : expr).      (* {k: v for i, x in enumerate(it)} *)
 
 Inductive stmt :=
 | SSkip
@@ -68,6 +75,7 @@ Inductive stmt :=
 | SIf (c : expr) (a b : stmt)
 | SForRange (x : string) (n : expr) (body : stmt)
 | SForRows (xs : list string) (a : expr) (body : stmt)   (* for x1, ..., xk in a *)
+| SForEnum (i x : string) (a : expr) (body : stmt)       (* for i, x in enumerate(a) *)
 | SRaise (e : perr).
 
 Definition env := string -> option val.
@@ -179,6 +187,63 @@ Fixpoint column (c : Z) (rows : list val) : pres (list Q) :=
       | PErr e => PErr e
       end
   | _ :: _ => PErr PTypeError
+  end.
+
+(** -a *)
+Definition neg_val (v : val) : pres val :=
+  match v with
+  | VInt z => POk (VInt (- z))
+  | VNum q => POk (VNum (- q))
+  | VList l =>
+      (fix go (l : list val) : pres val :=
+         match l with
+         | [] => POk (VList [])
+         | VInt z :: t => match go t with POk (VList r) => POk (VList (VInt (- z) :: r)) | POk _ => PErr PTypeError | PErr e => PErr e end
+         | _ :: _ => PErr PTypeError
+         end) l
+  | _ => PErr PTypeError
+  end.
+
+(** a[i] = v on a list, Python's negative indices *)
+Fixpoint list_set_nat (l : list val) (i : nat) (v : val) : option (list val) :=
+  match l, i with
+  | [], _ => None
+  | _ :: t, O => Some (v :: t)
+  | h :: t, S i' => match list_set_nat t i' v with Some t' => Some (h :: t') | None => None end
+  end.
+Definition list_set (l : list val) (i : Z) (v : val) : pres (list val) :=
+  let len := Z.of_nat (List.length l) in
+  let i' := if (i <? 0)%Z then (len + i)%Z else i in
+  if (i' <? 0)%Z then PErr PIndexError
+  else match list_set_nat l (Z.to_nat i') v with Some l' => POk l' | None => PErr PIndexError end.
+(** a[idx] = v with idx an integer array: every listed position receives v (NumPy checks all indices first; here the first bad
+    index raises - the final state is not observable after an exception) *)
+Fixpoint fancy_set (l : list val) (idx : list val) (v : val) : pres (list val) :=
+  match idx with
+  | [] => POk l
+  | VInt z :: t => match list_set l z v with POk l' => fancy_set l' t v | PErr e => PErr e end
+  | _ :: _ => PErr PTypeError
+  end.
+
+(** comprehension helpers *)
+Fixpoint map_pres (f : val -> pres val) (items : list val) : pres (list val) :=
+  match items with
+  | [] => POk []
+  | item :: rest =>
+      match f item with
+      | PErr err => PErr err
+      | POk v => match map_pres f rest with POk vs => POk (v :: vs) | PErr err => PErr err end
+      end
+  end.
+Fixpoint dict_enum (f : nat -> val -> pres (Z * val)) (items : list val) (pos : nat) (acc : list (Z * val))
+  : pres (list (Z * val)) :=
+  match items with
+  | [] => POk acc
+  | item :: rest =>
+      match f pos item with
+      | PErr err => PErr err
+      | POk (kz, vv) => dict_enum f rest (S pos) (dset kz vv acc)
+      end
   end.
 
 (** * Expressions (with the side effect of [pop]) *)
@@ -363,6 +428,66 @@ Fixpoint eval (ex : expr) (e : env) {struct ex} : pres (env * val) :=
           end
       | POk _ => PErr PTypeError
       end
+  | EDictValues a =>
+      match eval a e with
+      | PErr x => PErr x
+      | POk (e1, VDict d) => POk (e1, VList (map snd d))
+      | POk _ => PErr PTypeError
+      end
+  | EListComp x body it =>
+      match eval it e with
+      | PErr err => PErr err
+      | POk (e1, VList items) =>
+          match map_pres (fun item => match eval body (upd x item e1) with
+                                      | PErr err => PErr err
+                                      | POk (_, v) => POk v
+                                      end) items with
+          | POk vs => POk (e1, VList vs)
+          | PErr err => PErr err
+          end
+      | POk _ => PErr PTypeError
+      end
+  | ENeg a =>
+      match eval a e with
+      | PErr x => PErr x
+      | POk (e1, v) => match neg_val v with POk r => POk (e1, r) | PErr x => PErr x end
+      end
+  | EOracle name a =>
+      match eval a e with
+      | PErr x => PErr x
+      | POk (e1, VList _) =>
+          match e1 (String.append "oracle:" name) with
+          | Some v => POk (e1, v)
+          | None => PErr PUnbound
+          end
+      | POk _ => PErr PTypeError
+      end
+  | EZeros n =>
+      match eval n e with
+      | PErr x => PErr x
+      | POk (e1, VInt z) => POk (e1, VList (repeat (VInt 0) (Z.to_nat z)))
+      | POk _ => PErr PTypeError
+      end
+  | EDictEnum i x k v it =>
+      match eval it e with
+      | PErr err => PErr err
+      | POk (e1, VList items) =>
+          match dict_enum (fun pos item =>
+                             let ei := upd x item (upd i (VInt (Z.of_nat pos)) e1) in
+                             match eval k ei with
+                             | PErr err => PErr err
+                             | POk (_, VInt kz) =>
+                                 match eval v ei with
+                                 | PErr err => PErr err
+                                 | POk (_, vv) => POk (kz, vv)
+                                 end
+                             | POk _ => PErr PTypeError
+                             end) items 0 [] with
+          | POk d => POk (e1, VDict d)
+          | PErr err => PErr err
+          end
+      | POk _ => PErr PTypeError
+      end
   end.
 
 (** * Statements *)
@@ -377,6 +502,12 @@ Fixpoint for_rows (f : val -> env -> pres env) (rows : list val) (e : env) : pre
   match rows with
   | [] => POk e
   | r :: t => match f r e with POk e' => for_rows f t e' | PErr x => PErr x end
+  end.
+
+Fixpoint for_enum (f : Z -> val -> env -> pres env) (items : list val) (pos : Z) (e : env) : pres env :=
+  match items with
+  | [] => POk e
+  | item :: t => match f pos item e with POk e' => for_enum f t (pos + 1)%Z e' | PErr x => PErr x end
   end.
 
 Fixpoint exec (s : stmt) (e : env) {struct s} : pres env :=
@@ -402,6 +533,13 @@ Fixpoint exec (s : stmt) (e : env) {struct s} : pres env :=
           | POk (e2, VInt kz) =>
               match e2 x with
               | Some (VDict d) => POk (upd x (VDict (dset kz vv d)) e2)
+              | Some (VList l) => match list_set l kz vv with POk l' => POk (upd x (VList l') e2) | PErr err => PErr err end
+              | Some _ => PErr PTypeError
+              | None => PErr PUnbound
+              end
+          | POk (e2, VList idx) =>                (* x[idx] = v with an integer array idx (NumPy) *)
+              match e2 x with
+              | Some (VList l) => match fancy_set l idx vv with POk l' => POk (upd x (VList l') e2) | PErr err => PErr err end
               | Some _ => PErr PTypeError
               | None => PErr PUnbound
               end
@@ -442,6 +580,13 @@ Fixpoint exec (s : stmt) (e : env) {struct s} : pres env :=
                                               end
                                 | _ => PErr PTypeError
                                 end) rows e1
+      | POk _ => PErr PTypeError
+      end
+  | SForEnum i x a body =>
+      match eval a e with
+      | PErr err => PErr err
+      | POk (e1, VList items) =>
+          for_enum (fun pos item e' => exec body (upd x item (upd i (VInt pos) e'))) items 0%Z e1
       | POk _ => PErr PTypeError
       end
   | SRaise err => PErr err
